@@ -8,7 +8,10 @@ ASSUMPTIONS = ["a separator is inserted as the theorem's valid streams allow: a 
 
 SEPS = [("space", " "), ("newline", "\n"), ("tab run", "\t\t \t"), ("line comment", "-- note\n"), ("line comment after blank", "  -- find all 'x'\n  "),
         ("block comment", "--( note )--"), ("block comment with blanks", " --( set x to ) )-- \n"), ("block comment multi-line", "--(\n a 'b' \" \n)--"), ("empty line comment", "--\n"),
-        ("block comment ending in )-", "--( see (a)-)--"), ("block comment full of ) and -", "--()) -) )- - -- ))-))--"), ("line comment of dashes", "------\n"), ("empty block comment", "--()--")]
+        ("block comment ending in )-", "--( see (a)-)--"), ("block comment full of ) and -", "--()) -) )- - -- ))-))--"), ("line comment of dashes", "------\n"), ("empty block comment", "--()--"),
+        # a comment may hold any bytes: characters of several bytes, the replacement character, bytes that are no character at all
+        ("line comment with accents", "-- caf\xc3\xa9 \xe2\x82\xac\n"), ("block comment with stray bytes", "--( \xff\xfe \xc3 )--"), ("line comment with U+FFFD", "-- \xef\xbf\xbd x\n"),
+        ("block comment with U+FFFD", "--(\xef\xbf\xbd)--")]
 
 TEXTS = ["", "abc abc\nab 12 Ab\n", "aab ccb a1 'q'\n\tx\r\nend", "The fox 42; a_b. 3+4=7"]
 
